@@ -158,6 +158,14 @@ CHECKS["C10"] = (
     "DESIGN.md section 5 C10",
 )
 
+CHECKS["C09"] = (
+    "exploration",
+    "reference-model monitors: (a) generated destructuring patterns applied in let/fn/loop to conforming, short, nil and wrongly typed values, each bound name compared with the accessor expression derived from the pattern and evaluated with the real nth/nthnext/get of the same process, plus evaluation of the macroexpansion; (b) generated syntax-quote templates evaluated under three namespace states and compared with the data a reference resolver computes (qualification, gensym identity and freshness, unquote/splice values, collection types), plus single reader streams in which a symbol's meaning changes between two templates",
+    "Held on ~4700 (thorough 320000) destructuring evaluations over ~1500 distinct (pattern, value, form) and ~1200 (thorough 54000) templates, 40 (600) changing-resolution streams. Exploration only.",
+    "Trusted: the accessor derivation from patterns (:or = get with default), the reference resolver for syntax-quote. Patterns outside the documented vocabulary (duplicate names, kwargs rest outside fn params) are not generated.",
+    "DESIGN.md section 5 C09",
+)
+
 NOT_BUILT ="check not built yet in this session (design in DESIGN.md section 5); not claimed until its monitor exists and is quiet on the unchanged tree"
 
 
